@@ -311,6 +311,26 @@ type MpMpPtr struct {
 	Z *Inner
 }
 
+// AnyProps: a named map type with interface values (a back-reference stored in it stays a pointer to a map)
+type AnyProps map[string]interface{}
+
+func (AnyProps) HessianCodecName() string { return "com.example.AnyProps" }
+
+type AnyPropsHolder struct {
+	P AnyProps
+	N int32
+}
+
+// MpOfMaps / SlOfMaps: typed maps as map values and as list elements
+type MpOfMaps struct {
+	A string
+	M map[int32]map[int32]int32
+}
+type SlOfMaps struct {
+	A string
+	L []map[int32]int32
+}
+
 // Totals: a second named map type (C14: a type-name edit can turn one registered map type into another)
 type Totals map[string]int32
 
@@ -580,7 +600,7 @@ var Types = []Entry{
 	e(Embedded{}, "embedded"), e(Embedded2{}, "embedded"),
 	e(NamedS{}, "custom"), e(NamedHolder{}, "custom"), e(NamedListHolder{}, "custom", "custom-slice"), e(NamedMapHolder{}, "custom", "custom-map"), e(MapThenLists{}, "custom", "custom-map", "slice"), e(PadThen{}, "scalars"),
 	e(Uni{}, "scalars", "unicode-fields"), e(NamedNode{}, "recursive", "custom"), e(MpStructKey{}, "map", "struct-key"), e(MpStrAny{}, "map", "iface"),
-	e(SlMapSl{}, "slice", "slice-of-map"), e(SlMapPtr{}, "slice", "slice-of-map", "recursive"), e(MpMpPtr{}, "map", "recursive"), e(MpNamed{}, "map", "custom", "custom-map"),
+	e(SlMapSl{}, "slice", "slice-of-map"), e(SlMapPtr{}, "slice", "slice-of-map", "recursive"), e(MpMpPtr{}, "map", "recursive"), e(MpNamed{}, "map", "custom", "custom-map"), e(AnyPropsHolder{}, "map", "custom", "custom-map", "iface"), e(MpOfMaps{}, "map"), e(SlOfMaps{}, "slice", "slice-of-map"),
 	e(PNamed{}, "ptr-receiver-name"), e(EmbPNamed{}, "embedded", "ptr-receiver-name"), e(EmbPNamedHolder{}, "embedded", "ptr-receiver-name", "slice"),
 	e(MapThenFloats{}, "custom", "custom-map", "slice"),
 	e(Trip{}, "nested", "slice", "time-internals-names"), e(EmbPtrNamed{}, "embedded", "custom"), e(EmbPtrHolder{}, "embedded", "custom"),
